@@ -7,14 +7,15 @@
    The array topology->cpukinds[0 .. nr_cpukinds_allocated) is modelled as
    two lists: [kinds] = slots [0, nr_cpukinds) and [tail] = the allocated
    slots [nr_cpukinds, nr_cpukinds_allocated) *with whatever bytes the C code
-   left there*:  realloc'ed slots are memset to 0 ([zero_slot]); a slot vacated
-   by hwloc_internal_cpukinds_restrict keeps the bytes of the former last
-   element (memmove does not clear it, hwloc__free_infos does not reset
-   count/array).  hwloc_internal_cpukinds_register writes a new kind into
-   slot [newnr] and *adds* to the infos it finds there; if those are stale
-   (array != NULL: the pointer aliases a live kind's array or is dangling) the
-   C behaviour is a memory error (shared array reallocated / freed twice),
-   which the model reports as [F_STALE]. *)
+   left there*: realloc'ed slots and slots vacated by
+   hwloc_internal_cpukinds_restrict are memset to 0 ([zero_slot]).
+   hwloc_internal_cpukinds_register writes a new kind into slot [newnr] and
+   *adds* to the infos it finds there; if that slot held an infos array
+   pointer (array != NULL: it would alias a live kind's array or dangle) the C
+   behaviour would be a memory error, which the model reports as [F_STALE].
+   Properties_C15.history_safe proves that no history reaches it (before
+   fix c027890 restrict left a copy of the last kind in the vacated slot and
+   F_STALE was reachable: corpus/c15/stale_after_*.case). *)
 From Coq Require Import String.
 From Coq Require Import List NArith ZArith Bool.
 From HV Require Import Base.BSet Gen.Tables.
@@ -304,16 +305,17 @@ Definition pub_register (env : option str) (st : state) (cs : option bset) (forc
   end.
 
 (* ---------- hwloc_internal_cpukinds_restrict ---------- *)
-(* returns the surviving kinds and the contents left in the vacated slots
-   (in array order: the first vacated slot is the highest one) *)
+(* returns the surviving kinds and the contents of the vacated slots: each
+   removal shifts the rest down (memmove) and clears the vacated last slot
+   (memset 0, fix c027890) *)
 Fixpoint restrict_loop (topo : bset) (ks : list kind) : list kind * list kind :=
   match ks with
   | [] => ([], [])
   | k :: rest =>
     let k' := set_cpuset k (bs_inter (k_cpuset k) topo) in
-    let (live, stales) := restrict_loop topo rest in
-    if bs_is_empty (k_cpuset k') then (live, stales ++ [last rest k'])
-    else (k' :: live, stales)
+    let (live, vacated) := restrict_loop topo rest in
+    if bs_is_empty (k_cpuset k') then (live, vacated ++ [zero_slot])
+    else (k' :: live, vacated)
   end.
 Definition restrict_state (env : option str) (st : state) (topo : bset) : state :=
   let (live, stales) := restrict_loop topo (kinds st) in
